@@ -33,6 +33,7 @@ def required(tier):
         "gss.merge": 200,
         "packed_alternatives_compared": 20000,
         "tree_sets_compared": 1000,
+        "links_compared": 20000,
         "grammar.tag.hidden-leftrec": 3,
         "grammar.tag.right-nulled": 3,
         "grammar.overlap": 3,
@@ -124,6 +125,25 @@ def check_input(ctx, mon, g, pg, parser, pkeys, case, inp):
             known=known,
         )
         return
+    # every reachable link must hold *all* alternatives of its (symbol, span): the union over
+    # links can be complete while one link lacks an alternative, and then trees are missing
+    ref_by_key = {}
+    for (k, pk, spans) in ref_named:
+        ref_by_key.setdefault(k, set()).add((pk, spans))
+    root_key_end = o.forest.result.end_position
+    for key, alts in glrobs.forest_links(o.forest, pkeys):
+        ctx.count("links_compared")
+        lack = ref_by_key.get(key, set()) - alts
+        if lack:
+            known = findings.lost_derivations_known(g, mon)
+            ctx.violation(
+                "link-incomplete",
+                case,
+                "the link for %s holds %d of the %d alternatives of that symbol and span, e.g. lacks %s; forest has %s trees, reference %s; closure monitor missing=%s"
+                % (key, len(alts), len(ref_by_key.get(key, set())), sorted(lack, key=str)[0], o.len, refcount, mon.closure_missing[:2]),
+                known=known,
+            )
+            return
     if refcount <= 300 and not o.loop and o.len is not None and o.len <= 3000:
         ref_forms = set(pgx.ref_tree_form(t, g) for t in chart.trees())
         got_forms, complete = glrobs.forest_forms(o.forest, pkeys, 3000)
